@@ -136,14 +136,14 @@ Proof. intros H. apply next_visit_is_first_after. apply sorted_b_sound. exact H.
 (* soundness: "code on the line" means a node that starts before the comment and ends on the comment's line *)
 Theorem has_code_on_line_sound f cpos cline n :
   has_code_on_line f cpos cline n = true ->
-  exists x, In x (preorder n) /\ n_pos x < cpos /\ line_of f (n_end x) = cline.
+  exists x, In x (preorder n) /\ n_pos x < cpos /\ (line_of f (n_pos x) = cline \/ line_of f (n_end x) = cline).
 Proof.
   induction n as [k p e a cs IH] using node_ind'. cbn [has_code_on_line].
   destruct (p >=? cpos) eqn:E1; [discriminate|].
   assert (Hp : p < cpos) by lia.
-  destruct (line_of f e =? cline) eqn:E2.
+  destruct ((line_of f p =? cline) || (line_of f e =? cline)) eqn:E2.
   - intros _. exists (Node k p e a cs). split; [rewrite preorder_unfold; left; reflexivity|].
-    cbn [n_pos n_end]. split; [exact Hp|apply Z.eqb_eq; exact E2].
+    cbn [n_pos n_end]. split; [exact Hp|]. apply orb_true_iff in E2. destruct E2 as [E2|E2]; [left|right]; apply Z.eqb_eq; exact E2.
   - intros H. rewrite Forall_forall in IH.
     assert (Hex : exists c, In c cs /\ has_code_on_line f cpos cline c = true).
     { clear -H. induction cs as [|c r IHr]; [discriminate|].
@@ -161,7 +161,7 @@ Fixpoint parent_le_b (n : node) : bool :=
 
 Theorem has_code_on_line_complete f cpos cline n :
   parent_le_b n = true ->
-  (exists x, In x (preorder n) /\ n_pos x < cpos /\ line_of f (n_end x) = cline) ->
+  (exists x, In x (preorder n) /\ n_pos x < cpos /\ (line_of f (n_pos x) = cline \/ line_of f (n_end x) = cline)) ->
   has_code_on_line f cpos cline n = true.
 Proof.
   induction n as [k p e a cs IH] using node_ind'. intros Hw [x [Hx [Hp Hl]]].
@@ -172,7 +172,9 @@ Proof.
     apply andb_true_iff in Hw. destruct Hw as [Hw Hr]. apply andb_true_iff in Hw. destruct Hw as [H1 H2].
     destruct Hc0 as [<-|Hc0]; [split; [apply Z.leb_le; exact H1|exact H2]|apply IHr; assumption]. }
   destruct Hx as [<-|Hx].
-  - cbn [n_pos n_end] in *. replace (p >=? cpos) with false by lia. replace (line_of f e =? cline) with true by lia. reflexivity.
+  - cbn [n_pos n_end] in *. replace (p >=? cpos) with false by lia.
+    destruct Hl as [Hl|Hl]; [replace (line_of f p =? cline) with true by lia; reflexivity|].
+    replace (line_of f e =? cline) with true by lia. rewrite orb_true_r. reflexivity.
   - unfold preorder_list in Hx. apply in_flat_map in Hx. destruct Hx as [c [Hc Hx]].
     destruct (Hcs c Hc) as [Hle Hwc].
     (* x lies below c: c starts no later than x (parent_le down the path), so p <= pos c <= pos x < cpos *)
@@ -188,7 +190,7 @@ Proof.
       destruct Hcc as [H1 H2]. specialize (IHm c Hc y H2 Hy). lia. }
     pose proof (Hdesc c x Hwc Hx) as Hcx.
     replace (p >=? cpos) with false by lia.
-    destruct (line_of f e =? cline); [reflexivity|].
+    destruct ((line_of f p =? cline) || (line_of f e =? cline)); [reflexivity|].
     rewrite Forall_forall in IH.
     assert (Hrec : has_code_on_line f cpos cline c = true) by (apply IH; [exact Hc|exact Hwc|exists x; auto]).
     clear -Hc Hrec. induction cs as [|c0 r IHr]; [contradiction|].
